@@ -508,8 +508,8 @@ pub fn run(ctx: &mut Ctx) {
     ];
     ctx.run_regressions::<ReconnectScript>();
     ctx.run_regressions::<MergeOrder>();
-    ctx.run::<ReconnectScript>(ctx.tier.pick(2_000, 50_000));
-    ctx.run::<MergeOrder>(ctx.tier.pick(2_000, 50_000));
+    ctx.run::<ReconnectScript>(ctx.tier.pick(60_000, 1_000_000));
+    ctx.run::<MergeOrder>(ctx.tier.pick(60_000, 1_000_000));
 }
 
 pub fn replay(ctx: &mut Ctx, doc: &Value) -> bool {
